@@ -187,6 +187,7 @@ func thorough(w *World, r *Report, prop, verif string, extra map[string]interfac
 	if err != nil {
 		r.bad("THOROUGH", "alt-fileset", "", "GOARCH=386 load failed: "+err.Error())
 	} else {
+		w2.curProp = prop
 		r2 := newReport(prop, "thorough", w2)
 		if _, err := w2.Census(); err == nil {
 			for _, f := range propRules[prop] {
